@@ -51,7 +51,7 @@ class SymSet:
 
     def __init__(self, term, elem_sort=None, fresh=False):
         self.term = term
-        self.elem_sort = elem_sort or term.sort().domain()
+        self.elem_sort = elem_sort if elem_sort is not None else term.sort().domain()
         self.fresh = fresh
 
     def __repr__(self):
@@ -345,6 +345,13 @@ class _IntSet(Kind):
 
     def wrap(self, ctx, term):
         return SymSet(term)
+
+    def build(self, ctx, mk):
+        t = mk("", self.sort())
+        fin = z3.Function("finite", IntSetSort, z3.BoolSort())
+        if not ctx.bound:
+            ctx.assume(fin(t))  # every Python set is finite
+        return SymSet(t)
 
     def unwrap(self, v):
         if isinstance(v, SymSet):
